@@ -21,6 +21,8 @@ CellWhy(R) ==
   ELSE IF R.junk /\ \E i \in DOMAIN fs : fs[i] \in ZipSet THEN "a file that is not a zip at offset 0 is reported as a zip format"
   ELSE IF ~R.junk /\ ~Sound(present, fs) THEN "a reported format lacks one of its documented markers"
   ELSE IF ~R.junk /\ ~Complete(present, fs) THEN "markers present but the documented format is not reported"
+  ELSE IF ~MarSound(R.cell.filler = "mar", fs) THEN "model-archive format reported for a file without manifest, model and code members"
+  ELSE IF ~R.junk /\ ~MarComplete(R.cell.filler = "mar", fs) THEN "a zip with manifest, model and code members is not reported as a model archive"
   ELSE IF R.torch_accepts /\ ~(\E i \in DOMAIN fs : fs[i] = "PyTorch v1.3") THEN "PyTorch's zip reader accepts the file but PyTorch v1.3 is not reported"
   ELSE "ok"
 PolyWhy(R) ==
